@@ -100,7 +100,7 @@ def check(env, rep, tier):
             for s in sorted(obs, key=lambda x: (x["fn"], x["line"], x["kind"])):
                 ok = s["ok"]
                 lem = None
-                if not ok and s["kind"] == "assert:Overflow(Add)" and s["fn"].startswith(SUBJ + "resource_changed") \
+                if not ok and s["kind"] == "assert:Overflow(Add)" and name == "resource_changed" and s["fn"].startswith("observe::") \
                         and any("4294967295" in d for d in s["details"]):
                     ok, lem = True, "lemma6-sequence-rounds"
                     rep.lemmas[lem] = rep.lemmas.get(lem, 0) + 1
@@ -135,8 +135,9 @@ def check(env, rep, tier):
             # counter), wherever they sit - a for_each closure, a for loop, a helper function; the only closure looked up
             # is the retain predicate, found by its signature (&Observer -> bool)
             c_ret = None
-            for ob in prog.bodies.values():
-                if ob.get("promoted") or not ob["path"].startswith(SUBJ + "resource_changed::{closure") or ob["arg_count"] < 2:
+            for ob in sorted(reachable(prog, rc), key=lambda x_: x_["path"]):
+                # (a closure of resource_changed itself, or of a helper the round was moved into)
+                if ob.get("promoted") or "::{closure" not in ob["path"] or not ob["path"].startswith("observe::") or ob["arg_count"] < 2:
                     continue
                 pt = prog.types[ob["locals"][2]["ty"]]["s"]
                 # (&Observer -> bool for retain, &mut Observer -> bool when the update is fused into retain_mut)
@@ -147,6 +148,8 @@ def check(env, rep, tier):
             else:
                 results = {"ret": []}
                 seq_stores = []
+                seq_bodies = set()          # the function / closure that advances the sequence (found in the first run)
+                seq_paths = [0, 0]          # paths through it in the second run, and those that leave the sequence alone
                 site = {"file": rc["span"]["f"], "line": rc["span"]["l"], "fn": rc["path"]}
                 visit_bodies = [ob for ob in prog.bodies.values() if not ob.get("promoted") and ob["path"].startswith("observe::")
                                 and ob["id"] != rc["id"]
@@ -166,6 +169,9 @@ def check(env, rep, tier):
                         if not place.proj:
                             return
                         last = place.proj[-1]
+                        if last == ("f", i_seq):
+                            s.ghost["seq-stored"] = True
+                            seq_bodies.add(ctx.body["id"])
                         if last == ("f", i_seq) and mode == 1:
                             old_v = I_.read(s, place)
                             if isinstance(old_v, TopV):
@@ -221,6 +227,23 @@ def check(env, rep, tier):
                                 checkpoint(s_)      # (the predicate may also be the visit: retain_mut)
                         I.return_hooks[c_ret["id"]] = ret_hook
                         I.no_join_bodies.add(c_ret["id"])
+                    if mode == 0:
+                        # every round advances the sequence: no path through the code that does it returns without the store
+                        # (e.g. skipped "when nobody is listening any more" - the next notification would repeat a number)
+                        for sb in sorted(seq_bodies):
+                            if sb == rc["id"] or sb not in prog.bodies:
+                                continue
+                            prev_hook = I.return_hooks.get(sb)
+
+                            def seq_ret(I_, ctx, outs, prev_hook=prev_hook):
+                                for s_, _ in outs:
+                                    seq_paths[0] += 1
+                                    if not s_.ghost.pop("seq-stored", None):
+                                        seq_paths[1] += 1
+                                if prev_hook is not None:
+                                    prev_hook(I_, ctx, outs)
+                            I.return_hooks[sb] = seq_ret
+                            I.no_join_bodies.add(sb)
                     I.unroll_max_blocks = 0
                     I, res = run(prog, rc, args=args, st=st, I=I, gargs=gargs)
                     for s_, _ in res:
@@ -232,6 +255,11 @@ def check(env, rep, tier):
                         ok = False
                 rep.ob("C15.1", "sequence+1", ok, "a notification round does not store sequence = previous sequence + 1 (stores seen: %d)" % len(seq_stores), site,
                        sample={"rule": "C15.1", "stores": len(seq_stores)})
+                if seq_bodies and not (seq_bodies <= {rc["id"]}):
+                    rep.ob("C15.1", "sequence-every-round", seq_paths[0] >= 1 and seq_paths[1] == 0,
+                           "a notification round can leave the sequence as it was on %d of %d paths through the code that advances it: "
+                           "two successive notifications then carry the same number" % (seq_paths[1], seq_paths[0]), site,
+                           sample={"rule": "C15.1", "paths": seq_paths[0]})
                 v1, u1, I1, limit1 = per_mode[1]
                 v0, u0, _, _ = per_mode[0]
                 ok_mid = bool(v1) and bool(v0) and all(m is True for m, _ in v1 + v0)
